@@ -235,6 +235,7 @@ impl Prop for C09 {
             wide_states: true,
             divrem: true,
             many_outputs: true,
+            token_names: true,
             ..SysCfg::default()
         };
         let mut case = gen_system(&mut t, &cfg);
